@@ -21,7 +21,9 @@ RULE = (
     "cases = (backend, seeded history of 12-40 events of 3 authors mixing regular / replaceable targets with deletion "
     "events referencing own, foreign, unknown, malformed ([\"e\"], non-hex, 63 chars, upper-case, 65 chars), duplicate "
     "and many ids, e tags with extra items, p tags naming the victim, deletions of deletions; all arrival orders of "
-    "(target, deletion) incl. deletion first and equal timestamps). Non-trivial = an accepted deletion that references "
+    "(target, deletion) incl. deletion first and equal timestamps; GET /e/<id> of some targets before their deletion and "
+    "REQ+GET of every removed event right after it) plus bursts: targets, a foreign event and the author's deletion "
+    "acknowledged back to back without a pause (same / other connection, amid load, LMDB write lock held elsewhere). Non-trivial = an accepted deletion that references "
     "at least one stored event (own or foreign). Distinct = distinct (backend, canonical history)."
 )
 ASSUMPTIONS = [
@@ -29,13 +31,13 @@ ASSUMPTIONS = [
     "LMDB backend over /verif/shim (judged after writer idle); SQL = SQLite",
 ]
 MIN_NONTRIVIAL = {"quick": 200, "thorough": 2000}
-REQUIRED_COUNTERS = ["clause.frame", "clause.must_remove", "served_checks"]
+REQUIRED_COUNTERS = ["clause.frame", "clause.must_remove", "clause.burst_must_remove", "served_checks", "served_checks_seen_before", "gets_before"]
 SHARD_TIMEOUT = {"quick": 500, "thorough": 3000}
 
 
 def plan(tier, seed):
     n, hs = (6, 12) if tier == "quick" else (24, 40)
-    return [{"backend": b, "case_seed": seed * 7919 + i, "histories": hs} for b in ("sql", "lmdb") for i in range(n)]
+    return [{"backend": b, "case_seed": seed * 7919 + i, "histories": hs, "bursts": 12 if tier == "quick" else 40} for b in ("sql", "lmdb") for i in range(n)]
 
 
 def gen_history(r):
@@ -95,7 +97,13 @@ def gen_history(r):
             i = r.choice(idx)
             d = evs.pop(i)
             evs.insert(r.randrange(0, i + 1), d)
-    return evs
+    # some events are looked at through GET /e/<id> (and by REQ) before anything deletes them
+    out = []
+    for e in evs:
+        out.append(e)
+        if e["kind"] != 5 and r.random() < 0.35:
+            out.append({"get": e["id"]})
+    return out
 
 
 def wellformed_refs(D):
@@ -120,7 +128,7 @@ async def run_history(backend, history, counters):
     await rig.start()
     viols, nontrivial = [], []
     clause = counters.setdefault("clause", {})
-    to_probe = []
+    to_probe, probe_now, seen_by_get = [], [], set()
     try:
         conn = rig.connect("hist")
 
@@ -131,10 +139,16 @@ async def run_history(backend, history, counters):
             rp = {"backend": backend, "history": history[: i + 1]}
             vanished = [e for eid, e in pe.items() if eid not in ce]
             clause["frame"] = clause.get("frame", 0) + 1
+            if st.op == "http_get":
+                counters["gets_before"] = counters.get("gets_before", 0) + 1
+                seen_by_get.add(st.arg)
+                for v in vanished:
+                    viols.append({"key": "%s/get-removed" % backend, "msg": "[%s] GET /e/%s removed event %s" % (backend, st.arg[:12], v["id"][:12]), "replay": rp})
+                return
             if E["kind"] == 5:
                 refs, lrefs = wellformed_refs(E), lenient_refs(E)
                 if st.ok is True and any(x in pe for x in lrefs):
-                    nontrivial.append(h([backend, [(e["kind"], e["pubkey"][:4], e["created_at"], [t[:2] for t in e["tags"]][:4]) for e in history[: i + 1]][-6:]]))
+                    nontrivial.append(h([backend, [(e["kind"], e["pubkey"][:4], e["created_at"], [t[:2] for t in e["tags"]][:4]) if "get" not in e else "get" for e in history[: i + 1]][-6:]]))
                 for v in vanished:
                     if v["pubkey"] != E["pubkey"]:
                         viols.append({"key": "%s/foreign-deleted/%s" % (backend, "referenced" if v["id"] in lrefs else "unreferenced"),
@@ -158,6 +172,7 @@ async def run_history(backend, history, counters):
                                                      % (backend, E["created_at"], x[:12], t["kind"], t["created_at"]), "replay": rp})
                             else:
                                 to_probe.append((x, rp))
+                                probe_now.append((x, rp))
             else:
                 A = ref.address(E)
                 for v in vanished:
@@ -165,20 +180,121 @@ async def run_history(backend, history, counters):
                         viols.append({"key": "%s/non-deletion-removed" % backend,
                                       "msg": "[%s] accepting kind %d removed unrelated event %s (kind %d)" % (backend, E["kind"], v["id"][:12], v["kind"]), "replay": rp})
 
-        steps = [hist.Step("event", raw=e) for e in history]
-        await hist.drive(rig, steps, judge, conn=conn)
+        async def served(x, rp, when):
+            counters["served_checks"] = counters.get("served_checks", 0) + 1
+            if x in seen_by_get:
+                counters["served_checks_seen_before"] = counters.get("served_checks_seen_before", 0) + 1
+            how = "seen-before" if x in seen_by_get else "unseen"
+            ans = await qcore.run_req(rig, conn, [{"ids": [x]}])
+            if any(e.get("id") == x for e in ans["events"]):
+                viols.append({"key": "%s/deleted-still-served/req/%s" % (backend, how), "msg": "[%s] deleted event %s is still returned by REQ ids (%s)" % (backend, x[:12], when), "replay": rp})
+            status, body = await http_get(rig, x)
+            if status == 200:
+                viols.append({"key": "%s/deleted-still-served/http/%s" % (backend, how),
+                              "msg": "[%s] deleted event %s is still served by GET /e/<id> (%s; fetched before the deletion: %s)" % (backend, x[:12], when, x in seen_by_get), "replay": rp})
+
+        async def after(i, st, prev, cur):
+            # right after an accepted deletion: what it removed is not served any more
+            while probe_now:
+                x, rp = probe_now.pop()
+                await served(x, rp, "right after the deletion")
+
+        steps = [hist.Step("http_get", arg=e["get"]) if "get" in e else hist.Step("event", raw=e) for e in history]
+        await hist.drive(rig, steps, judge, conn=conn, after=after)
         # deleted events must not be served any more
         final = dump.stored_events(dump.dump(rig))
         for x, rp in to_probe[:6]:
             if x in final:
                 continue  # re-submitted later in the history
-            counters["served_checks"] = counters.get("served_checks", 0) + 1
-            ans = await qcore.run_req(rig, conn, [{"ids": [x]}])
-            if any(e.get("id") == x for e in ans["events"]):
-                viols.append({"key": "%s/deleted-still-served/req" % backend, "msg": "[%s] deleted event %s is still returned by REQ ids" % (backend, x[:12]), "replay": rp})
-            status, body = await http_get(rig, x)
-            if status == 200:
-                viols.append({"key": "%s/deleted-still-served/http" % backend, "msg": "[%s] deleted event %s is still served by GET /e/<id>" % (backend, x[:12]), "replay": rp})
+            await served(x, rp, "end of history")
+    finally:
+        await rig.close()
+    return viols, nontrivial
+
+
+def gen_burst(r, n):
+    """(targets of author A, one foreign event, deletion by A referencing all of them)"""
+    A, B = ref.key_from_seed("c08-burst-a"), ref.key_from_seed("c08-burst-b")
+    cases = []
+    for i in range(n):
+        tag = "%x-%d" % (r.getrandbits(40), i)
+        own = [ref.make_event(A, kind=r.choice([1, 1, 7, 4, 30000, 10002]), created_at=gen.T0 + r.randint(0, 9), tags=[["d", tag]], content="own %s %d" % (tag, j))
+               for j in range(r.choice([1, 1, 2, 4]))]
+        foreign = ref.make_event(B, kind=1, created_at=gen.T0 + 1, content="foreign " + tag)
+        D = ref.make_event(A, kind=5, created_at=gen.T0 + 20, tags=[["e", e["id"]] for e in own + [foreign]], content="del " + tag)
+        mode = r.choice(["same-connection", "other-connection", "writer-blocked", "mixed-with-load"])
+        cases.append({"own": own, "foreign": foreign, "D": D, "mode": mode})
+    return cases
+
+
+async def run_burst(backend, cases, counters):
+    """
+    The target and its deletion arrive back to back: the target is acknowledged, then the
+    deletion is, with no pause for the store to settle in between (on LMDB optionally while
+    the write lock is held elsewhere, as a garbage collector or another worker would).
+    Once everything settled the deletion must have had its effect.
+    """
+    rig = R.Rig(backend=backend, config={"analysis_delay": 0})
+    await rig.start()
+    viols, nontrivial = [], []
+    bc = counters.setdefault("burst", {})
+    try:
+        c1, c2 = rig.connect("b1"), rig.connect("b2")
+        L = ref.key_from_seed("c08-load")
+        for ci, case in enumerate(cases):
+            mode = case["mode"]
+            if mode == "writer-blocked" and backend != "lmdb":
+                mode = "same-connection"
+            own, F, D = case["own"], case["foreign"], case["D"]
+            rp = {"backend": backend, "burst": case}
+            n0 = rig.rec.n
+            held = None
+            if mode == "writer-blocked":
+                held = rig.storage.db.begin(write=True)
+            try:
+                if mode == "mixed-with-load":
+                    for j in range(6):
+                        c1.feed(["EVENT", ref.make_event(L, kind=1, created_at=gen.T0, content="load %d %d %d" % (ci, j, n0))])
+                for e in own + [F]:
+                    c1.feed(["EVENT", e])
+                if mode == "other-connection":
+                    await c1.processed()
+                    c2.feed(["EVENT", D])
+                    await c2.processed()
+                else:
+                    c1.feed(["EVENT", D])
+                    await c1.processed()
+            finally:
+                if held is not None:
+                    held.abort()
+            await rig.quiesce()
+            oks = {}
+            for c in (c1, c2):
+                for _, f in R.ok_frames(c, n0):
+                    if len(f) > 2:
+                        oks[f[1]] = f[2]
+            bc[mode] = bc.get(mode, 0) + 1
+            counters["steps"] = counters.get("steps", 0) + 1
+            if oks.get(D["id"]) is not True or not all(oks.get(e["id"]) is True for e in own + [F]):
+                bc["not-all-accepted"] = bc.get("not-all-accepted", 0) + 1
+                continue
+            nontrivial.append(h([backend, "burst", mode, len(own), [e["kind"] for e in own]]))
+            stored = dump.stored_events(dump.dump(rig))
+            counters.setdefault("clause", {})["burst_must_remove"] = counters["clause"].get("burst_must_remove", 0) + len(own)
+            for e in own:
+                gone = e["id"] not in stored
+                ans = await qcore.run_req(rig, c1, [{"ids": [e["id"]]}, {"authors": [e["pubkey"]], "kinds": [e["kind"]], "#d": [e["tags"][0][1]]}])
+                status, _ = await http_get(rig, e["id"])
+                counters["served_checks"] = counters.get("served_checks", 0) + 1
+                if not gone or status == 200 or any(x.get("id") == e["id"] for x in ans["events"]):
+                    viols.append({"key": "%s/own-not-deleted/burst/%s" % (backend, mode),
+                                  "msg": "[%s] %s: event %s (kind %d) and its author's deletion were acknowledged in that order, yet afterwards it is %s"
+                                         % (backend, mode, e["id"][:12], e["kind"],
+                                            ", ".join(w for w, c in (("in the store", not gone), ("served by GET /e/<id>", status == 200),
+                                                                     ("returned by REQ", any(x.get("id") == e["id"] for x in ans["events"]))) if c)),
+                                  "replay": rp})
+            if F["id"] not in stored:
+                viols.append({"key": "%s/foreign-deleted/burst" % backend, "msg": "[%s] %s: deletion removed the foreign event %s" % (backend, mode, F["id"][:12]), "replay": rp})
     finally:
         await rig.close()
     return viols, nontrivial
@@ -198,18 +314,25 @@ def run_shard(spec):
     counters = {}
     histories = [gen_history(r) for _ in range(spec["histories"])]
     viols, nontrivial = R.run(run_many, spec["backend"], histories, counters)
+    v2, nt2 = R.run(run_burst, spec["backend"], gen_burst(r, spec.get("bursts", 12)), counters)
+    viols.extend(v2)
+    nontrivial.extend(nt2)
     seen, out = {}, []
     for v in viols:
         seen[v["key"]] = seen.get(v["key"], 0) + 1
         if seen[v["key"]] <= 1:
             out.append(v)
     counters["violations_by_key"] = seen
-    sample = [{"kind": e["kind"], "author": e["pubkey"][:6], "created_at": e["created_at"], "tags": [t[:2] for t in e["tags"]][:3]} for e in histories[0][:12]]
+    sample = [{"kind": e["kind"], "author": e["pubkey"][:6], "created_at": e["created_at"], "tags": [t[:2] for t in e["tags"]][:3]} if "get" not in e else {"GET /e/": e["get"][:12]}
+              for e in histories[0][:12]]
     return {"evaluations": counters.get("steps", 0), "nontrivial": sorted(set(nontrivial)), "counters": counters,
             "coverage": {"backends": {spec["backend"]: 1}}, "violations": out, "samples": [{"backend": spec["backend"], "history": sample}], "inconclusive": []}
 
 
 def replay(rp, spec):
     counters = {}
+    if "burst" in rp:
+        v, nt = R.run(run_burst, rp["backend"], [rp["burst"]], counters)
+        return {"evaluations": 1, "nontrivial": nt, "counters": counters, "violations": v, "samples": [], "inconclusive": []}
     v, nt = R.run(run_history, rp["backend"], rp["history"], counters)
     return {"evaluations": len(rp["history"]), "nontrivial": nt, "counters": counters, "violations": v, "samples": [], "inconclusive": []}
